@@ -69,6 +69,8 @@ theorem modelled_sources_unchanged : pinnedSources =
    ("runtime/vcache/nulls.go:convolve", "e294ae5477e6"),
    ("runtime/vcache/loader.go:loader.load", "56884bf57c3f"),
    ("runtime/vcache/loader.go:loader.loadPrimitive", "5300522c4557"),
+   ("runtime/vcache/loader.go:loader.loadVals", "a47423d8db1e"),
+   ("runtime/vcache/loader.go:empty", "e3a4ec5721da"),
    ("runtime/vcache/loader.go:loader.loadOffsets", "1c55a22b0eb4"),
    ("runtime/vcache/loader.go:loader.loadUint32", "ac025edd27a8"),
    ("runtime/vcache/loader.go:loader.loadRecord", "59e7c11b3ead"),
@@ -229,19 +231,20 @@ theorem convolve_flattens (P : List Bool) (vs : List Val) (hlen : P.count false 
     (convolve P (vs.map Val.isNull)).count true = P.count true + (vs.map Val.isNull).count true :=
   expandVal_convolve P vs hlen
 
-/-- **vec_leaf_correct.**  A primitive column (not enum, not net) loaded under ANY flattened
+/-- **vec_leaf_correct.**  A primitive column of any primitive type (net included since /repo
+    496cea1e9; not enum) loaded under ANY flattened
     bitmap, whichever of plain / dictionary / const it was stored as: slot `s` serialises to
     null where the bitmap says so and to the `rank s`-th written value elsewhere. -/
 theorem vec_leaf_correct (t : Ty) (id : Nat) (nn : List Val) (b : Bitmap) (F : List Bool)
     (hR : Rep b F) (hcnt : F.count false = nn.length) (hprim : ∀ v ∈ nn, ∃ x, v = .prim x)
-    (hE : isEnumTy t = false) (hN : isNetTy t = false) (hnull : isNullTy t = true → nn = []) :
+    (hE : isEnumTy t = false) (hnull : isNullTy t = true → nn = []) :
     ∃ v, loadLeaf t (primEncode id true (nn.map Val.primBytes))
         (F.count true + (primEncode id true (nn.map Val.primBytes)).len) b = some v ∧
       vecType v = t ∧ SlotSpec v F nn :=
-  loadLeaf_spec t id nn b F hR hcnt hprim hE hN hnull
+  loadLeaf_spec t id nn b F hR hcnt hprim hE hnull
 
 /-- **vng_roundtrip_vectors_partial.**  Guard `flatTy t`: the type is built from primitive
-    types other than net, records (nested arbitrarily, with nulls at every level) and named
+    types (all twenty, net included), records (nested arbitrarily, with nulls at every level) and named
     types.  Then for every list of well-formed values the vector path yields, slot by slot,
     the values that were written, with the right type and length — in particular every
     child column's nulls are convolved with those of all enclosing records.
@@ -269,14 +272,13 @@ example : readVec [] (encTop
      (.record (.cons [97] (.prim 9) .nil), .cont (.cons .null .nil))] := by decide
 
 /-- **not_vng_roundtrip_vectors**: the vector path fails (error or panic) on an enum column,
-    on a net column in plain encoding, on a union column with a null slot and on an
-    error-typed field below a record column that contains a null.  (The harness replays the
+    on a union column with a null slot and on an error-typed field below a record column that
+    contains a null.  (A net column in plain encoding failed too until /repo 496cea1e9; it is
+    now covered by `vec_leaf_correct` / `vng_roundtrip_vectors_partial`.)  (The harness replays the
     same witnesses on the real code.) -/
 theorem not_vng_roundtrip_vectors :
     -- enum a|b: values 0, 1
     readVec [] (encTop [(.enum [[97], [98]], .prim []), (.enum [[97], [98]], .prim [1])]) = none ∧
-    -- a net leaf stored plain
-    loadLeaf (.prim 27) (.plain [[10, 0, 0, 0, 24]] 1) 1 none = none ∧
     -- {u:null} {u:7((int64,string))}
     readVec [] (encTop
       [(.record (.cons [117] (.union (.cons (.prim 9) (.cons (.prim 25) .nil))) .nil), .cont (.cons .null .nil)),
@@ -290,21 +292,23 @@ theorem not_vng_roundtrip_vectors :
 
 /-- **load_total — FALSE**: the writer stores every non-container type as a primitive column,
     enum included, and the loader has no enum case (`loadVals` falls through to an error,
-    `loadDict` and `empty` panic); the `net` case of `loadVals` indexes a nil slice. -/
+    `loadDict` and `empty` panic). -/
 theorem not_load_total :
     "TypeEnum" ∉ loadValsCases.map (·.1) ∧ loadValsFallthrough = "error" ∧
     "TypeEnum" ∉ loadDictCases ∧ loadDictDefault = "panic" ∧
-    "TypeEnum" ∉ emptyCases ∧ emptyDefault = "panic" ∧
-    ("TypeOfNet", "nil-slice") ∈ loadValsCases := by decide
+    "TypeEnum" ∉ emptyCases ∧ emptyDefault = "panic" := by decide
 
 /-- … and what does hold: every primitive type `LookupPrimitiveByID` implements has a case in
     `loadVals` and `empty`, every one that can be dictionary encoded (not in the 8-bit
-    exclusion list, not the null type) has a case in `loadDict`, and every case but `net`
-    allocates its slice before indexing it. -/
+    exclusion list, not the null type) has a case in `loadDict`, and EVERY case of `loadVals`
+    allocates its slice before indexing it (the `net` case since /repo 496cea1e9). -/
 theorem load_total_partial :
     (∀ p ∈ primitiveTypes, p.2 ∈ loadValsCases.map (·.1) ∧ p.2 ∈ emptyCases) ∧
     (∀ p ∈ primitiveTypes, p.1 ∉ dictExcludedIDs → p.1 ≠ 29 → p.2 ∈ loadDictCases) ∧
-    (∀ c ∈ loadValsCases, c.1 ≠ "TypeOfNet" → c.2 = "alloc") := by decide
+    (∀ c ∈ loadValsCases, c.2 = "alloc") ∧ netAllocated = true := by decide
+
+-- a net leaf stored plain loads (it returned `none`, i.e. panicked, before the fix)
+example : (loadLeaf (.prim 27) (.plain [[10, 0, 0, 0, 24]] 1) 1 none).isSome = true := by decide
 
 /-- the recursive walks of the loader handle every node kind `newShadow` builds. -/
 theorem loader_walks_total :
@@ -313,8 +317,7 @@ theorem loader_walks_total :
 
 /-! ## Projection -/
 
-/-- **projection_sound_partial.**  Guard `flatTy t` (primitives other than net, records, named
-    types).  For every set of field paths (`mkProj` is `vcache.NewProjection`, with the code's
+/-- **projection_sound_partial.**  Guard `flatTy t` (all primitive types, records, named types).  For every set of field paths (`mkProj` is `vcache.NewProjection`, with the code's
     path-tree insertion) and every list of well-formed values, the projection of the loaded
     vectors has the projected type and yields, slot by slot, exactly the data of the written
     value at the requested paths (`projVal`: selected fields in path order, nested paths,
